@@ -185,7 +185,8 @@ def run(rep: Report, repo: Repo):
             rep.violate('C01.prefix-row', simmod, '<module>', f'kind_prefixes[{p!r}] = {names}',
                         f'prefix {p!r} must select {exp} for 4/3/2 connected inputs, table has {names}', node=knode)
 
-    evaluated = translation_evaluated(rep, simmod, init, rows)
+    from kvstatic.core import cached_rules
+    evaluated = cached_rules(rep, repo, 'c01.translation', ['sim'], lambda r: translation_evaluated(r, simmod, init, rows))
     rep.floor('ops.append sites', len(sites), 5 if not evaluated else 1)
     try:
         check_arity_selection(rep, simmod, init, rows, luts, weights)
@@ -458,7 +459,8 @@ def wiring_rules(rep, repo):
     """C01.wiring for checks that include it through depends(): evaluated translation, structural form as fall-back."""
     rows, _kp = simtab.kind_prefixes(repo)
     simmod, init = simops.simops_init(repo)
-    if not translation_evaluated(rep, simmod, init, rows):
+    from kvstatic.core import cached_rules
+    if not cached_rules(rep, repo, 'c01.translation', ['sim'], lambda r: translation_evaluated(r, simmod, init, rows)):
         check_wiring(rep, simmod, init, simops.op_sites(init))      # (not tolerant: the structural form needs the columns)
 
 
